@@ -134,7 +134,16 @@ def check(prog, rep, tier):
                         lim = tot_slot
                     if lim is None:
                         continue
-                    big = [n[1] for n in walk(strip_epochs(e.value)) if n[0] == "c" and isinstance(n[1], int) and not isinstance(n[1], bool) and abs(n[1]) >= BIG]
+                    def pins(v):
+                        """the constants the stored value can be pinned at: the value itself, or the bounds of the min / max (or conditional) it ends in"""
+                        if v[0] == "c":
+                            return [v[1]] if isinstance(v[1], int) and not isinstance(v[1], bool) else []
+                        if v[0] == "call" and v[1] in (("g", "min"), ("g", "max")):
+                            return [c_ for a_ in v[2] for c_ in pins(a_)]
+                        if v[0] == "phi":
+                            return pins(v[2]) + pins(v[3])
+                        return []
+                    big = [c_ for c_ in pins(strip_epochs(e.value)) if abs(c_) >= BIG]
                     k = ("sat", f.qualname, id(e.node))
                     off = [c_ for c_ in big if c_ not in lim]
                     if off and k not in seen_sites:
